@@ -1,3 +1,14 @@
+/-
+  FcProofs.Lemmas.LexsortSeg — the *segment form* of the fuzzy lexicographic sort and its two
+  basic theorems (from the validated spike of DESIGN.md Appendix C, generalised to arbitrary items):
+
+    segSort srt K fuel j l  =  sort l by column j, split after every adjacent pair with different
+                               cluster key `K j`, recurse into every segment with column j+1.
+
+  For EVERY family of sorting routines `srt j` that returns a permutation sorted w.r.t. the cluster
+  keys (ties broken arbitrarily — numpy's unstable sort included) the result is a permutation of
+  the input (`segSort_perm`) and lexicographically sorted by cluster keys (`segSort_sorted`).
+-/
 import Mathlib.Data.List.Sort
 import Mathlib.Data.List.Flatten
 import Mathlib.Data.List.Perm.Basic
@@ -103,49 +114,77 @@ theorem splitKey_sorted (k : α → Int) : ∀ l, l.Pairwise (fun a b => k a ≤
 end Fc
 
 namespace Fc
-abbrev Row := Nat → Int            -- cluster key of column j
+variable {α : Type}
 
-structure IsSort (srt : (Row → Int) → List Row → List Row) : Prop where
-  perm : ∀ k l, (srt k l).Perm l
-  sorted : ∀ k l, (srt k l).Pairwise (fun a b => k a ≤ k b)
+/-- every group produced by `splitKey` is non-empty -/
+theorem splitKey_ne_nil (k : α → Int) : ∀ l, ∀ g ∈ splitKey k l, g ≠ []
+  | [], g, hg => by simp [splitKey] at hg
+  | [a], g, hg => by simp [splitKey] at hg; simp [hg]
+  | a :: b :: t, g, hg => by
+    have ih := splitKey_ne_nil k (b :: t)
+    obtain ⟨h, hs, hh⟩ := splitKey_cons_head k b t
+    unfold splitKey at hg
+    rw [hh] at hg ih
+    by_cases hk : k a = k b
+    · simp only [hk, if_true] at hg
+      rcases List.mem_cons.mp hg with rfl | hg
+      · simp
+      · exact ih g (List.mem_cons_of_mem _ hg)
+    · simp only [hk, if_false] at hg
+      rcases List.mem_cons.mp hg with rfl | hg
+      · simp
+      · exact ih g hg
 
-def lexFrom (srt : (Row → Int) → List Row → List Row) : Nat → Nat → List Row → List Row
+/-- `srt j` sorts by column `j`: a permutation, sorted w.r.t. the cluster key `K j` on lists of
+    items satisfying `P` (how ties are broken is left open) -/
+structure IsSortOn (P : α → Prop) (srt : Nat → List α → List α) (K : Nat → α → Int) : Prop where
+  perm : ∀ j l, (srt j l).Perm l
+  sorted : ∀ j l, (∀ a ∈ l, P a) → (srt j l).Pairwise (fun a b => K j a ≤ K j b)
+
+/-- segment form of the fuzzy lexsort over the columns `j, j+1, …, j+fuel-1` -/
+def segSort (srt : Nat → List α → List α) (K : Nat → α → Int) : Nat → Nat → List α → List α
   | 0, _, l => l
   | fuel + 1, j, l =>
-    ((splitKey (fun r => r j) (srt (fun r => r j) l)).map (lexFrom srt fuel (j + 1))).flatten
+    ((splitKey (K j) (srt j l)).map (segSort srt K fuel (j + 1))).flatten
 
-/-- lexicographic ≤ on columns j … j+fuel-1 -/
-def lexLE : Nat → Nat → Row → Row → Prop
+/-- lexicographic ≤ of the cluster keys of columns j … j+fuel-1 -/
+def lexLE (K : Nat → α → Int) : Nat → Nat → α → α → Prop
   | 0, _, _, _ => True
-  | fuel + 1, j, a, b => a j < b j ∨ (a j = b j ∧ lexLE fuel (j + 1) a b)
+  | fuel + 1, j, a, b => K j a < K j b ∨ (K j a = K j b ∧ lexLE K fuel (j + 1) a b)
 
-theorem lexFrom_perm {srt} (h : IsSort srt) : ∀ fuel j l, (lexFrom srt fuel j l).Perm l
+theorem flatten_map_perm {f : List α → List α} (hf : ∀ g, (f g).Perm g) :
+    ∀ L : List (List α), ((L.map f).flatten).Perm L.flatten
+  | [] => by simp
+  | g :: gs => by
+    simp only [List.map_cons, List.flatten_cons]
+    exact List.Perm.append (hf g) (flatten_map_perm hf gs)
+
+theorem segSort_perm {P : α → Prop} {srt K} (h : IsSortOn P srt K) :
+    ∀ fuel j (l : List α), (segSort srt K fuel j l).Perm l
   | 0, _, _ => List.Perm.refl _
   | fuel + 1, j, l => by
-    unfold lexFrom
-    have h1 : ∀ L : List (List Row), ((L.map (lexFrom srt fuel (j + 1))).flatten).Perm L.flatten := by
-      intro L
-      induction L with
-      | nil => simp
-      | cons g gs ih =>
-        simp only [List.map_cons, List.flatten_cons]
-        exact List.Perm.append (lexFrom_perm h fuel (j + 1) g) ih
-    refine (h1 _).trans ?_
+    unfold segSort
+    refine (flatten_map_perm (fun g => segSort_perm h fuel (j + 1) g) _).trans ?_
     rw [splitKey_flatten]
     exact h.perm _ _
 
-theorem lexFrom_sorted {srt} (h : IsSort srt) : ∀ fuel j l,
-    (lexFrom srt fuel j l).Pairwise (lexLE fuel j)
-  | 0, _, l => by simp [lexFrom, lexLE, List.pairwise_iff_forall_sublist]
-  | fuel + 1, j, l => by
-    unfold lexFrom
-    obtain ⟨hc, hg⟩ := splitKey_sorted (fun r : Row => r j) _ (h.sorted (fun r => r j) l)
+theorem segSort_sorted {P : α → Prop} {srt K} (h : IsSortOn P srt K) :
+    ∀ fuel j (l : List α), (∀ a ∈ l, P a) → (segSort srt K fuel j l).Pairwise (lexLE K fuel j)
+  | 0, _, l, _ => by simp [segSort, lexLE, List.pairwise_iff_forall_sublist]
+  | fuel + 1, j, l, hP => by
+    unfold segSort
+    obtain ⟨hc, hg⟩ := splitKey_sorted (K j) _ (h.sorted j l hP)
+    have hmemP : ∀ g ∈ splitKey (K j) (srt j l), ∀ a ∈ g, P a := by
+      intro g hgm a ha
+      have : a ∈ (splitKey (K j) (srt j l)).flatten := List.mem_flatten.mpr ⟨g, hgm, ha⟩
+      rw [splitKey_flatten] at this
+      exact hP a ((h.perm j l).mem_iff.mp this)
     rw [List.pairwise_flatten]
     constructor
     · intro g' hg'
       obtain ⟨g, hgm, rfl⟩ := List.mem_map.mp hg'
-      have hs := lexFrom_sorted h fuel (j + 1) g
-      have hp := lexFrom_perm h fuel (j + 1) g
+      have hs := segSort_sorted h fuel (j + 1) g (hmemP g hgm)
+      have hp := segSort_perm h fuel (j + 1) g
       refine hs.imp_of_mem ?_
       intro a b ha hb hab
       right
@@ -154,5 +193,7 @@ theorem lexFrom_sorted {srt} (h : IsSort srt) : ∀ fuel j l,
       refine hg.imp ?_
       intro g1 g2 h12 a ha b hb
       left
-      exact h12 a ((lexFrom_perm h fuel (j + 1) g1).mem_iff.mp ha) b ((lexFrom_perm h fuel (j + 1) g2).mem_iff.mp hb)
+      exact h12 a ((segSort_perm h fuel (j + 1) g1).mem_iff.mp ha) b
+        ((segSort_perm h fuel (j + 1) g2).mem_iff.mp hb)
+
 end Fc
